@@ -2470,9 +2470,17 @@ impl<'a, B: Bindgen> Generator<'a, B> {
                     self.emit(&GuestDeallocateVariant { blocks: 2 });
                 }
 
+                // discard the operands on the stack, otherwise nothing to free.
+                // Note that flags with more than 32 members have more than
+                // one flat value.
+                TypeDefKind::Flags(flags) => {
+                    for _ in 0..flags.repr().count() {
+                        self.stack.pop().unwrap();
+                    }
+                }
+
                 // discard the operand on the stack, otherwise nothing to free.
-                TypeDefKind::Flags(_)
-                | TypeDefKind::Enum(_)
+                TypeDefKind::Enum(_)
                 | TypeDefKind::Future(_)
                 | TypeDefKind::Stream(_)
                 | TypeDefKind::Handle(Handle::Own(_))
